@@ -18,6 +18,13 @@ CLAIMS = {
  "C02": claim("Proved: for every CAS-conditional entry point and every state, the call is applied only if the expected CAS equals the "
               "current one (0 = no document) and otherwise changes nothing; two conditional writers expecting the same version can never "
               "both be applied. Interleavings reduce to lists of atomic actions (assumed atomic)."),
+ "C03": claim("Proved over lists of atomic actions (any number of interfering callers, any regular operations): while a key keeps a CAS it "
+              "keeps the body and xattrs it had under that CAS; hence the conditional write that ends an Update / WriteUpdateWithXattrs / "
+              "WriteSubDoc iteration is applied only on top of exactly the version its callback was shown, and otherwise changes nothing; "
+              "Incr reads and writes inside one atomic action. ASSUMED, not proved: each atomic action of the model is atomic in the code "
+              "(bucket mutex + BEGIN IMMEDIATE, single-SELECT reads); exercised by forced schedules through the instrumentation points "
+              "(each checked for linearizability against the sequential model) and a 16-goroutine / 2-handle stress on both bucket kinds.",
+              note="Partial: atomicity of the implementation's critical sections is an assumption."),
  "C04": claim("Proved: the hybrid-clock step is strictly increasing for every clock reading; for every history (all entry points, other "
               "buckets' draws, restarts) the committed-CAS log is strictly increasing and bounded by the persisted high-water mark, which "
               "re-seeds the clock on reopen. uint64 wrap-around is not modelled (Nat)."),
@@ -41,6 +48,12 @@ CLAIMS = {
  "C11": claim("Proved: a call addressed to collection c leaves the whole Coll value of every other collection unchanged (single-row entry points "
               "and Update loops), and posts to no feed of another collection; validated on the real code by re-reading every key of every "
               "collection after every operation. DropDataStore / re-creation and views are not modelled yet (partial)."),
+ "C13": claim("Proved on the registry model: Close is idempotent per handle and touches no other handle's record; while a second reference is "
+              "held Close only decrements; a closed handle's calls fail with the closed error; CreateNew fails iff the bucket exists, "
+              "ReOpenExisting iff it does not, another URL is refused; handles share the store; CloseAndDelete removes entry, count and files; "
+              "Close never touches stored data. The reference-count invariant over whole histories is validated by the correspondence "
+              "(bucketCount / GetBucketNames / directories compared after every step), not proved; racing opens/closes by forced schedules.",
+              note="Partial: count = number of open handles is checked dynamically, not proved."),
  "C14": claim("Proved for every reachable state (all write paths, touches, PreserveExpiry, WithMeta, sweeps, purge, reopen): if any stored "
               "document has expiry T the expiry manager's timer is armed for a time <= T; the sweep deletes only due keys and its Delete "
               "yields a tombstone with a deletion event; stored expiry = absolute(exp) / preserved / cleared per entry point. That the Go "
